@@ -360,6 +360,19 @@ static int corr(uint64_t seed, const std::string& tier, const std::string& outdi
         case 13: {
             // record text followed by the byte the parser has behind the view
             std::string rec = r.coin() ? randLine(r, 30, true) : joinTokens(r, {randStrTok(r), randDblTok(r), randStrTok(r), randIntTok(r)}, 1);
+            if (r.coin(1, 3)) {
+                // n*'quoted value with separators', closed / unterminated / closed before the first separator
+                std::string sq = std::to_string(r.range(0, 12)) + "*'" + randWord(r);
+                switch (r.range(0, 4)) {
+                case 0: sq += " " + randWord(r) + "'"; break;
+                case 1: sq += ",\t" + randWord(r) + "\n x'" + randWord(r); break;
+                case 2: sq += " " + randWord(r); break;                 // no closing quote
+                case 3: sq += "'" + randWord(r) + " y'"; break;         // closes before the separator
+                default: sq += "' '" + randWord(r) + " z"; break;       // second quoted token left open
+                }
+                rec = (r.coin() ? randIntTok(r) + " " : std::string()) + sq + (r.coin() ? " " + randStrTok(r) : std::string());
+                sink.count("fn.split.starquote");
+            }
             char next = r.coin(3, 4) ? '/' : '\n';
             std::string buf = rec; buf.push_back(next); buf.push_back('\n');
             Opm::KeywordLocation loc("K", "f", 1);
